@@ -13,7 +13,7 @@ import ast
 
 from ..cfg import cfg_of
 from ..dataflow import all_def_values, depends_on
-from ..effects import classify_call, path_leaf, summaries
+from ..effects import Unknown, ceval, classify_call, path_leaf, summaries
 from ..model import AnalysisError, ClassInfo, FuncInfo, dotted, norm_stmt, unparse, walk_no_nested
 from .common import (
     QUICK,
@@ -533,7 +533,26 @@ def rule_r6(prog, res) -> None:
                         if mentions_name(t, id_names) and (mentions_name(t, centre_params) or "range" in unparse(t) or "len(" in unparse(t)):
                             other = branch_nodes_of(cfg, dn.test).get(not dn.polarity)
                             if other is not None and raise_dominated_by(cfg, other):
-                                guarded = True
+                                # the guard must accept exactly ids == 0..N-1 for N centres (folded on test vectors)
+                                raises_when = not dn.polarity
+                                vectors = [([0, 1, 2], 3, False), ([0, 1, 3], 4, True), ([0, 2], 3, True), ([1, 2, 3], 3, True), ([0, 1], 3, True)]
+                                sound = True
+                                for ids, ncen, should_raise in vectors:
+                                    env = {nm: ids for nm in id_names}
+                                    for cp in centre_params:
+                                        env[cp] = [object()] * ncen
+                                    try:
+                                        v = bool(ceval(t, env))
+                                    except Unknown:
+                                        sound = None
+                                        break
+                                    if (v == raises_when) != should_raise:
+                                        sound = False
+                                        break
+                                if sound is None:
+                                    raise AnalysisError(f"C09.R6: cannot evaluate the centre/id guard {unparse(t)}")
+                                if sound:
+                                    guarded = True
                 if guarded:
                     res.ok("C09.R6", res.site(fi, norm_stmt(d)), "positional pairing is dominated by a raising id-list guard")
                 else:
